@@ -15,3 +15,203 @@ def register(reg):
                           'x - 1 <= pow2(result) - 2'],
                  serves=['C02', 'C05'], harness='pure_int',
                  note='difference width reserves all ones for missing (the width need not be minimal)'))
+
+    ENC = Ref('Encoder')
+    S = Ref('CoderState')
+    W = Ref('BitStringBitWriter')
+    L0 = 'old(len(state.decoded_descriptors))'
+    P0 = 'old(wlen(bit_writer))'
+    BITS = 'wbits(bit_writer)'
+    V = 'old(select(state.decoded_values, state.idx_value))'          # the value to encode
+    REQ = ['state.decoded_descriptors != None', 'state.decoded_values != None', 'bit_writer != None',
+           '0 <= state.idx_value', 'state.idx_value < len(state.decoded_values)', 'state.decoded_descriptors is not state.decoded_values']
+    MOD = ['list(state.decoded_descriptors)', 'state.idx_value', 'bit_writer.bit_stream.bits', 'bit_writer.bit_stream.len']
+    COMMON = ['len(state.decoded_descriptors) == %s + 1' % L0, 'select(state.decoded_descriptors, %s) is descriptor' % L0,
+              'list_eq_upto(state.decoded_descriptors, %s)' % L0, 'state.idx_value == old(state.idx_value) + 1',
+              'same_list(state.decoded_values)', 'unchanged(state, "idx_value")',
+              'prefix_same(%s, old(%s), %s)' % (BITS, BITS, P0)]
+    # raw integer of a present numeric value: the scaled value (rounded to the nearest integer unless the factor is 1) minus the reference
+    RAW = '(ite(Eq(scale_powered, 1), ival(%s), fround(fmul(%s, scale_powered))) - refval)' % (V, 'ite(is_int(%s), i2f(ival(%s)), fval(%s))' % (V, V, V))
+    UNFIT = '(not is_none(%s) and (%s < 0 or %s >= pow2(nbits)))' % (V, RAW, RAW)
+    add(Contract(M + 'Encoder.process_numeric_uncompressed',
+                 {'self': ENC, 'state': S, 'bit_writer': W, 'descriptor': DESC, 'nbits': INT, 'scale_powered': FLOAT, 'refval': INT},
+                 requires=REQ + ['1 <= nbits <= 64', 'is_none(%s) or is_int(%s) or is_flt(%s)' % (('select(state.decoded_values, state.idx_value)',) * 3),
+                                 'implies(Eq(scale_powered, 1), not is_flt(select(state.decoded_values, state.idx_value)))'],
+                 modifies=MOD,
+                 ensures=COMMON + ['wlen(bit_writer) == %s + nbits' % P0,
+                                   'U(%s, %s, nbits) == ite(is_none(%s), pow2(nbits) - 1, %s)' % (BITS, P0, V, RAW)],
+                 raises={'ValueError': UNFIT}, must_raise=[('ValueError', UNFIT)],
+                 serves=['C02', 'C03'],
+                 note='exactly one field of nbits bits: all ones for missing, else round(value * 10**scale) - reference; a value whose '
+                      'scaled integer does not fit is refused (never wrapped or clipped)'))
+    CV = 'ite(is_none(%s), pow2(nbits) - 1, ival(%s))' % (V, V)
+    CUNFIT = '(not is_none(%s) and (ival(%s) < 0 or ival(%s) >= pow2(nbits)))' % (V, V, V)
+    add(Contract(M + 'Encoder.process_codeflag_uncompressed',
+                 {'self': ENC, 'state': S, 'bit_writer': W, 'descriptor': DESC, 'nbits': INT},
+                 requires=REQ + ['1 <= nbits <= 64', 'is_none(select(state.decoded_values, state.idx_value)) or is_int(select(state.decoded_values, state.idx_value))'],
+                 modifies=MOD,
+                 ensures=COMMON + ['wlen(bit_writer) == %s + nbits' % P0, 'U(%s, %s, nbits) == %s' % (BITS, P0, CV)],
+                 raises={'ValueError': CUNFIT}, must_raise=[('ValueError', CUNFIT)],
+                 serves=['C02'], note='code / flag: the unsigned value, all ones for missing'))
+
+    SV_ = 'select(state.decoded_values, state.idx_value)'
+    FIELD = 'Bst(%s, %s, nbytes)' % (BITS, P0)
+    TXT = 'chars(%s)' % V
+    add(Contract(M + 'Encoder.process_string_uncompressed',
+                 {'self': ENC, 'state': S, 'bit_writer': W, 'descriptor': DESC, 'nbytes': INT},
+                 requires=REQ + ['nbytes >= 0', 'is_none(%s) or is_byt(%s) or is_txt(%s)' % (SV_, SV_, SV_)],
+                 modifies=MOD,
+                 ensures=COMMON + ['wlen(bit_writer) == %s + 8 * nbytes' % P0, 'len(%s) == nbytes' % FIELD,
+                                   # missing: every bit set; present: the bytes cut to the width or padded with blanks
+                                   'implies(is_none(%s), chars_eq(%s, "\\xff" * nbytes))' % (V, FIELD),
+                                   'implies(not is_none(%s) and len(%s) >= nbytes, chars_eq(%s, substr(%s, 0, nbytes)))' % (V, TXT, FIELD, TXT),
+                                   'implies(not is_none(%s) and len(%s) < nbytes, str_prefixof(%s, %s) and '
+                                   'allspaces(substr(%s, len(%s), nbytes - len(%s))))' % (V, TXT, TXT, FIELD, FIELD, TXT, TXT)],
+                 serves=['C02'], note='strings: latin-1, cut to the field width or padded with blanks; missing = all ones'))
+    add(Contract(M + 'Encoder.process_constant_uncompressed',
+                 {'self': ENC, 'state': S, 'bit_writer': W, 'descriptor': DESC, 'value': INT},
+                 requires=REQ, modifies=['list(state.decoded_descriptors)', 'state.idx_value'],
+                 ensures=['len(state.decoded_descriptors) == %s + 1' % L0, 'select(state.decoded_descriptors, %s) is descriptor' % L0,
+                          'list_eq_upto(state.decoded_descriptors, %s)' % L0, 'state.idx_value == old(state.idx_value) + 1',
+                          'same_list(state.decoded_values)', 'unchanged(state, "idx_value")', 'wlen(bit_writer) == %s' % P0],
+                 raises={'AssertionError': 'not Eq(%s, value)' % V}, must_raise=[('AssertionError', 'not Eq(%s, value)' % V)],
+                 serves=['C02'], note='operator slots occupy a value position and no bits'))
+    NV = 'ival(%s)' % V
+    NUNFIT = '(is_int(%s) and abs(%s) >= pow2(nbits - 1))' % (V, NV)
+    add(Contract(M + 'Encoder.process_new_refval_uncompressed',
+                 {'self': ENC, 'state': S, 'bit_writer': W, 'descriptor': DESC, 'nbits': INT},
+                 requires=REQ + ['2 <= nbits <= 64', 'state.new_refvals != None', 'is_none(%s) or is_int(%s)' % (SV_, SV_)],
+                 modifies=MOD + ['dict(state.new_refvals)'],
+                 ensures=COMMON + ['wlen(bit_writer) == %s + nbits' % P0,
+                                   'U(%s, %s, 1) == ite(%s < 0, 1, 0)' % (BITS, P0, NV), 'U(%s, %s + 1, nbits - 1) == abs(%s)' % (BITS, P0, NV),
+                                   'haskey(state.new_refvals, descriptor.id) and val_eq(dval(state.new_refvals, descriptor.id), %s)' % V],
+                 raises={'ValueError': NUNFIT, 'AssertionError': 'is_none(%s)' % V},
+                 must_raise=[('AssertionError', 'is_none(%s)' % V)],
+                 serves=['C02'], note='new reference values are written sign-magnitude; a missing one is refused'))
+
+    # ------------------------------------------------------------------------------------------------------------
+    # compressed columns
+    ALL = 'state.decoded_values_all_subsets'
+    N = 'len(%s)' % ALL
+    K0 = 'old(state.idx_value)'
+
+    def colval(j):
+        return 'select(select(%s, %s), %s)' % (ALL, j, K0)
+    add(Contract(M + 'Encoder._next_compressed_values_and_status_from_all_subsets',
+                 {'self': ENC, 'state': S, 'descriptor': DESC}, returns=TupleT(ListT(VAL), BOOL, BOOL),
+                 requires=['state.decoded_descriptors != None', '%s != None' % ALL, '%s >= 1' % N, 'state.n_subsets == %s' % N,
+                           '0 <= state.idx_value', 'forall(j, 0, %s, state.idx_value < len(select(%s, j)))' % (N, ALL)],
+                 modifies=['list(state.decoded_descriptors)', 'state.idx_value'],
+                 ensures=['len(state.decoded_descriptors) == %s + 1' % L0, 'select(state.decoded_descriptors, %s) is descriptor' % L0,
+                          'list_eq_upto(state.decoded_descriptors, %s)' % L0, 'state.idx_value == %s + 1' % K0, 'unchanged(state, "idx_value")',
+                          'fresh(result[0])', 'len(result[0]) == %s' % N,
+                          # the column: one value per subset, in subset order
+                          'forall(j, 0, %s, val_eq(select(result[0], j), %s))' % (N, colval('j')),
+                          # all_equal exactly when every subset carries the same value (None counts as a value); all_missing: all None
+                          'result[1] == forall(j, 0, %s, Eq(%s, %s))' % (N, colval('j'), colval('0')),
+                          'result[2] == forall(j, 0, %s, is_none(%s))' % (N, colval('j'))],
+                 serves=['C02', 'C05'],
+                 note='width 0 is used exactly when all subsets agree: all_equal must not ignore missing entries'))
+
+    COLREQ = ['state.decoded_descriptors != None', '%s != None' % ALL, '%s >= 1' % N, 'state.n_subsets == %s' % N, 'bit_writer != None',
+              '0 <= state.idx_value', 'forall(j, 0, %s, state.idx_value < len(select(%s, j)))' % (N, ALL),
+              'forall(j, 0, %s, is_none(%s) or (is_int(%s) and 0 <= ival(%s) and ival(%s) < pow2(62)))'
+              % (N, 'select(select(%s, j), state.idx_value)' % ALL, 'select(select(%s, j), state.idx_value)' % ALL,
+                 'select(select(%s, j), state.idx_value)' % ALL, 'select(select(%s, j), state.idx_value)' % ALL)]
+    COLMOD = ['list(state.decoded_descriptors)', 'state.idx_value', 'bit_writer.bit_stream.bits', 'bit_writer.bit_stream.len']
+    AGREE = 'forall(j, 0, %s, Eq(%s, %s))' % (N, colval('j'), colval('0'))
+    ALLMISS = 'forall(j, 0, %s, is_none(%s))' % (N, colval('j'))
+    F_MIN = 'U(%s, %s, nbits_min_value)' % (BITS, P0)
+    F_W = 'U(%s, %s + nbits_min_value, 6)' % (BITS, P0)
+    P1 = '(%s + nbits_min_value + 6)' % P0
+
+    def f_inc(j, w=F_W):
+        return 'U(%s, %s + (%s) * %s, %s)' % (BITS, P1, j, w, w)
+    col_ensures = [
+        'len(state.decoded_descriptors) == %s + 1' % L0, 'select(state.decoded_descriptors, %s) is descriptor' % L0,
+        'state.idx_value == %s + 1' % K0, 'unchanged(state, "idx_value")',
+        'prefix_same(%s, old(%s), %s)' % (BITS, BITS, P0),
+        # width 0 exactly when all subsets agree
+        '(%s == 0) == %s' % (F_W, AGREE),
+        'wlen(bit_writer) == %s + %s * %s' % (P1, N, F_W),
+        # minimum: all ones when every entry is missing, else the smallest entry that is present
+        'implies(%s, %s == pow2(nbits_min_value) - 1)' % (ALLMISS, F_MIN),
+        'implies(not %s, forall(j, 0, %s, implies(not is_none(%s), %s <= ival(%s))))' % (ALLMISS, N, colval('j'), F_MIN, colval('j')),
+        # differences reconstruct the raw values exactly; all ones (and only that) marks a missing entry
+        'implies(%s != 0, forall(j, 0, %s, ite(is_none(%s), %s == pow2(%s) - 1, %s + %s == ival(%s) and %s != pow2(%s) - 1)))'
+        % (F_W, N, colval('j'), f_inc('j'), F_W, F_MIN, f_inc('j'), colval('j'), f_inc('j'), F_W)]
+
+    def enc_loop_invs(k):
+        """after the value-rewriting loop position k: rewritten differences before k, original column from k on"""
+        return ['len(values) == %s' % N, 'fresh(values)',
+                'forall(j, 0, %s, is_int(select(values, j)) and ival(select(values, j)) == ite(is_none(%s), pow2(nbits_diff) - 1, ival(%s) - ival(min_value)))'
+                % (k, colval('j'), colval('j')),
+                'forall(j, %s, %s, val_eq(select(values, j), %s))' % (k, N, colval('j'))]
+    add(Contract(M + 'Encoder.process_codeflag_compressed',
+                 {'self': ENC, 'state': S, 'bit_writer': W, 'descriptor': DESC, 'nbits_min_value': INT},
+                 requires=COLREQ + ['1 <= nbits_min_value <= 64'], modifies=COLMOD,
+                 locals={'values': ListT(VAL), 'min_value': VAL, 'max_value': VAL, 'value': VAL},
+                 loops={0: Loop(invariants=enc_loop_invs('_i0') + ['1 <= nbits_diff <= 64', 'is_int(min_value)', 'is_int(max_value)',
+                                                                  'ival(max_value) - ival(min_value) <= pow2(nbits_diff) - 2',
+                                                                  'forall(j, 0, %s, implies(not is_none(%s), ival(min_value) <= ival(%s) and ival(%s) <= ival(max_value)))'
+                                                                  % (N, colval('j'), colval('j'), colval('j'))],
+                                modifies=['list(values)'], locals={'value': VAL, 'idx': INT}),
+                        1: Loop(invariants=['wlen(bit_writer) == %s + _i1 * nbits_diff' % P1, '1 <= nbits_diff <= 64',
+                                            '%s == nbits_diff' % F_W, '%s == ival(min_value)' % F_MIN,
+                                            'prefix_same(%s, old(%s), %s)' % (BITS, BITS, P0),
+                                            'forall(j, 0, _i1, %s == ival(select(values, j)))' % f_inc('j', 'nbits_diff')],
+                                modifies=['bit_writer.bit_stream.bits', 'bit_writer.bit_stream.len'], locals={'value': VAL})},
+                 ensures=col_ensures, raises={'ValueError': None}, serves=['C02', 'C05'],
+                 note='compressed code / flag column: minimum, 6-bit width, differences; all ones marks exactly the missing entries'))
+
+    def raw(j):
+        c = colval(j)
+        return ('(ite(Eq(scale_powered, 1), ival(%s), fround(fmul(ite(is_int(%s), i2f(ival(%s)), fval(%s)), scale_powered))) - refval)' % (c, c, c, c))
+    NCOLREQ = ['state.decoded_descriptors != None', '%s != None' % ALL, '%s >= 1' % N, 'state.n_subsets == %s' % N, 'bit_writer != None',
+               '0 <= state.idx_value', 'forall(j, 0, %s, state.idx_value < len(select(%s, j)))' % (N, ALL),
+               # values conform to the field: None, or a number whose raw integer is representable (0 .. 2**62)
+               'forall(j, 0, %s, is_none(%s) or ((is_int(%s) or is_flt(%s)) and implies(Eq(scale_powered, 1), is_int(%s))))'
+               % ((N,) + ('select(select(%s, j), state.idx_value)' % ALL,) * 4),
+               'forall(j, 0, %s, implies(not is_none(%s), 0 <= %s and %s < pow2(62)))'
+               % (N, 'select(select(%s, j), state.idx_value)' % ALL, raw('j').replace(K0, 'state.idx_value'), raw('j').replace(K0, 'state.idx_value'))]
+    ncol_ensures = [
+        'len(state.decoded_descriptors) == %s + 1' % L0, 'select(state.decoded_descriptors, %s) is descriptor' % L0,
+        'state.idx_value == %s + 1' % K0, 'unchanged(state, "idx_value")',
+        'prefix_same(%s, old(%s), %s)' % (BITS, BITS, P0),
+        '(%s == 0) == %s' % (F_W, AGREE),
+        'wlen(bit_writer) == %s + %s * %s' % (P1, N, F_W),
+        'implies(%s, %s == pow2(nbits_min_value) - 1)' % (ALLMISS, F_MIN),
+        'implies(not %s, forall(j, 0, %s, implies(not is_none(%s), %s <= %s)))' % (ALLMISS, N, colval('j'), F_MIN, raw('j')),
+        'implies(%s != 0, forall(j, 0, %s, ite(is_none(%s), %s == pow2(%s) - 1, %s + %s == %s and %s != pow2(%s) - 1)))'
+        % (F_W, N, colval('j'), f_inc('j'), F_W, F_MIN, f_inc('j'), raw('j'), f_inc('j'), F_W)]
+
+    def scaled_invs(k):
+        return ['len(values) == %s' % N, 'fresh(values)',
+                'forall(j, 0, %s, ite(is_none(%s), is_none(select(values, j)), is_int(select(values, j)) and ival(select(values, j)) == %s))'
+                % (k, colval('j'), raw('j')),
+                'forall(j, %s, %s, val_eq(select(values, j), %s))' % (k, N, colval('j'))]
+
+    def diff_invs(k):
+        return ['len(values) == %s' % N, 'fresh(values)',
+                'forall(j, 0, %s, is_int(select(values, j)) and ival(select(values, j)) == ite(is_none(%s), pow2(nbits_diff) - 1, %s - ival(min_value)))'
+                % (k, colval('j'), raw('j')),
+                'forall(j, %s, %s, ite(is_none(%s), is_none(select(values, j)), is_int(select(values, j)) and ival(select(values, j)) == %s))'
+                % (k, N, colval('j'), raw('j'))]
+    add(Contract(M + 'Encoder.process_numeric_compressed',
+                 {'self': ENC, 'state': S, 'bit_writer': W, 'descriptor': DESC, 'nbits_min_value': INT, 'scale_powered': FLOAT, 'refval': INT},
+                 requires=NCOLREQ + ['1 <= nbits_min_value <= 64'], modifies=COLMOD,
+                 locals={'values': ListT(VAL), 'min_value': VAL, 'max_value': VAL, 'value': VAL},
+                 loops={0: Loop(invariants=scaled_invs('_i0'), modifies=['list(values)'], locals={'value': VAL, 'idx': INT}),
+                        1: Loop(invariants=diff_invs('_i1') + ['1 <= nbits_diff <= 64', 'is_int(min_value)', 'is_int(max_value)',
+                                                               'ival(max_value) - ival(min_value) <= pow2(nbits_diff) - 2',
+                                                               'forall(j, 0, %s, implies(not is_none(%s), ival(min_value) <= %s and %s <= ival(max_value)))'
+                                                               % (N, colval('j'), raw('j'), raw('j'))],
+                                modifies=['list(values)'], locals={'value': VAL, 'idx': INT}),
+                        2: Loop(invariants=['wlen(bit_writer) == %s + _i2 * nbits_diff' % P1, '1 <= nbits_diff <= 64',
+                                            '%s == nbits_diff' % F_W, '%s == ival(min_value)' % F_MIN,
+                                            'prefix_same(%s, old(%s), %s)' % (BITS, BITS, P0),
+                                            'forall(j, 0, _i2, %s == ival(select(values, j)))' % f_inc('j', 'nbits_diff')],
+                                modifies=['bit_writer.bit_stream.bits', 'bit_writer.bit_stream.len'], locals={'value': VAL})},
+                 ensures=ncol_ensures, raises={'ValueError': None}, serves=['C02', 'C03', 'C05'],
+                 note='compressed numeric column: scaled raws, minimum, 6-bit width, differences; all ones marks exactly the missing entries; '
+                      'width 0 exactly when all subsets agree'))
